@@ -67,7 +67,7 @@ func c14Seeds(s *refper.Schema, thorough bool) (seeds [][]byte, names []string) 
 // every position inside its value a run of adversarial octets is inserted and the two enclosing length determinants
 // are RE-COMPUTED, so that the inner decoder really reaches the run (a run inserted blindly is cut off by the
 // enclosing open-type length). Returns nil when the seed does not have that shape.
-func c14rewrap(seed []byte, runs []int, emit func([]byte)) {
+func c14rewrap(seed []byte, runs []int, seen map[string]bool, emit func([]byte)) {
 	det := func(b []byte) (n, w int, ok bool) { // general length determinant, unfragmented forms
 		if len(b) == 0 {
 			return 0, 0, false
@@ -107,6 +107,52 @@ func c14rewrap(seed []byte, runs []int, emit func([]byte)) {
 		}
 		ies = append(ies, ie{body[p : p+3], body[p+3+wi : p+3+wi+li]})
 		p += 3 + wi + li
+	}
+	rebuild := func(i int, nv []byte) {
+		nb := append([]byte{}, body[:3]...)
+		for j := range ies {
+			v := ies[j].val
+			if j == i {
+				v = nv
+			}
+			nb = append(nb, ies[j].hdr...)
+			nb = append(nb, put(len(v))...)
+			nb = append(nb, v...)
+		}
+		if len(nb) >= 16384 {
+			return
+		}
+		m := append([]byte{}, seed[:3]...)
+		m = append(m, put(len(nb))...)
+		m = append(m, nb...)
+		if len(m) <= 4096 {
+			emit(m)
+		}
+	}
+	// every IE value cut to its first 0..3 octets, its last remaining octet also replaced by adversarial values, and every
+	// IE value replaced by each single octet: the enclosing lengths say exactly that (the inner decoder runs out of data
+	// in the middle of a field, with nothing of the outer message left to read into)
+	for i := range ies {
+		// once per (message, IE, leading octets of its value): the seeds of one message differ in one IE at a time
+		k := fmt.Sprintf("%x/%x/%x", seed[:3], ies[i].hdr, ies[i].val[:min(len(ies[i].val), 3)])
+		if seen[k] {
+			continue
+		}
+		seen[k] = true
+		for n := 0; n <= 3 && n <= len(ies[i].val); n++ {
+			cut := append([]byte{}, ies[i].val[:n]...)
+			rebuild(i, cut)
+			if n > 0 {
+				for _, b := range []byte{0x00, 0x01, 0x20, 0x40, 0x7f, 0x80, 0xc1, 0xff} {
+					c2 := append([]byte{}, cut...)
+					c2[n-1] = b
+					rebuild(i, c2)
+				}
+			}
+		}
+		for b := 0; b < 256; b++ {
+			rebuild(i, []byte{byte(b)})
+		}
 	}
 	for i := range ies {
 		for pos := 0; pos <= len(ies[i].val); pos++ {
@@ -179,7 +225,7 @@ func runC14(ctx *Ctx) {
 	if ctx.Thorough {
 		pairAlphabet, maxGap = []byte{0x00, 0x01, 0x7f, 0x80, 0x81, 0xbf, 0xc0, 0xc1, 0xc4, 0xc5, 0xfe, 0xff}, 6
 	}
-	r.Rule = fmt.Sprintf("(a) every octet string of length 0..%d; (b) for each of %d seeds (reference encodings of every message type%s): every prefix, every single-octet substitution (len x 255), every single-bit flip, every 2-octet length form {8000,bfff,c4ff,ffff} at every position, runs of 6..200 (thorough: 2..3900) octets c4 / c1 / ff / 80 inserted at every position, the same runs (8 and 64 octets; thorough 2..1000) inserted at every position inside every IE value of every message and CHOICE alternative with the two enclosing length determinants re-computed, every pair of octets up to %d positions apart replaced by every pair from a %d-value adversarial alphabet (unknown identifiers x fragmented / overlong / zero length determinants)%s; "+
+	r.Rule = fmt.Sprintf("(a) every octet string of length 0..%d; (b) for each of %d seeds (reference encodings of every message type%s): every prefix, every single-octet substitution (len x 255), every single-bit flip, every 2-octet length form {8000,bfff,c4ff,ffff} at every position, runs of 6..200 (thorough: 2..3900) octets c4 / c1 / ff / 80 inserted at every position, the same runs (8 and 64 octets; thorough 2..1000) inserted at every position inside every IE value of every message and CHOICE alternative with the two enclosing length determinants re-computed, every IE value cut to 0..3 octets (last octet also adversarial) or replaced by each single octet with the lengths re-computed, every pair of octets up to %d positions apart replaced by every pair from a %d-value adversarial alphabet (unknown identifiers x fragmented / overlong / zero length determinants)%s; "+
 		"oracle: ngap.Decoder returns (value|error) - no panic, per-call allocation <= %d MiB (schema-legal maximum is ~15 MiB for a 65535-element IE list), per-call CPU time below a %v horizon; each input is decoded in a shard process with an address-space limit; distinct = distinct inputs (hashed); non-trivial = all",
 		maxLen, len(seeds), map[bool]string{true: " and of every value one CHOICE alternative / IE selection away", false: ""}[ctx.Thorough], maxGap, len(pairAlphabet),
 		map[bool]string{true: ", every pair of bit flips in the first 24 octets", false: ""}[ctx.Thorough], c14AllocBound>>20, c14Horizon)
@@ -348,8 +394,9 @@ func runC14(ctx *Ctx) {
 		}
 	}
 	// (c) structure-preserving runs inside every IE value, enclosing lengths re-computed
+	seenIE := map[string]bool{}
 	for _, seed := range altSeeds {
-		c14rewrap(seed, rewrapRuns, feed)
+		c14rewrap(seed, rewrapRuns, seenIE, feed)
 	}
 	runBatch()
 }
